@@ -56,7 +56,9 @@ def in_range_random(rng, name, widen=1.0):
         if v > 0:
             v = v * float(10 ** rng.uniform(-w, w))
             if np.all(col == np.round(col)) and name.find("edge") < 0 and name.find("block") < 0:
-                v = float(np.round(v))      # mutation counts
+                # mutation counts: whole numbers, and never below the smallest count EP produced for this
+                # function (the branch of a mutation being placed carries at least that mutation)
+                v = max(float(np.round(v)), float(col.min()))
         if np.any(col == 0) and rng.random() < 0.2:
             v = 0.0
         out.append(v)
